@@ -837,7 +837,7 @@ func (e *Enc) invoke(fr *Frame, cc *ssa.CallCommon, recv Val, args []Val, st *St
 	if e.ctx.isAbsMethod(cc.Method) {
 		return e.absCall(recv, cc.Method, st, reach, true)
 	}
-	if sch := e.ctx.methodSchema(cc.Method); sch != nil {
+	if sch := e.ctx.methodSchema(cc.Method, it); sch != nil {
 		return e.callBySchema(fr, sch, append([]Val{recv}, args...), st, reach, pos, rt)
 	}
 	// devirtualisation directive: the interface is assumed to hold one concrete type; that assumption is an obligation here
